@@ -556,6 +556,33 @@ def after_kill_still_usable(lab, s):
     lab.tag("rerun-after-kill-with-stray-temp" if temps else "rerun-after-kill")
     ctx.cov["evaluations"] += 1
     shutil.rmtree(d, ignore_errors=True)
+    # the same with a kill in the MIDDLE of the write: a file-size limit makes the first write stop after k bytes and the
+    # process is killed when it comes back for the rest, so a temporary file holding a prefix of the new content is left
+    # behind (a prefix of a YAML list or of an indented JSON document often still parses).  Whatever a later run makes of
+    # that file, the same command afterwards must produce exactly the new content.
+    n = len(s.new)
+    ks = sorted(set(k for k in (n - 1, n - 3, n - 9, n - 20, n - 40, (2 * n) // 3, n // 2) if 0 < k < n))
+    for k in ks:
+        for when in ("2", "3", "1"):
+            d = lab.fresh(s.tmpl)
+            run_cmd(lab.wtf, d, s.argv, wrapper=["prlimit", "--fsize=%d" % k, "--", "strace", "-f", "-o", "/dev/null", "-e", "trace=write",
+                                                 "-e", "inject=write:signal=SIGKILL:when=%s" % when])
+            tgt = s.target(d)
+            partial = [f for f in stray_temps(tgt) if os.path.getsize(os.path.join(os.path.dirname(tgt), f)) == k]
+            if not partial:
+                shutil.rmtree(d, ignore_errors=True)
+                continue
+            lab.tag("killed-mid-write-with-partial-temp")
+            rc, out, err = run_cmd(lab.wtf, d, s.argv)
+            post = read_opt(tgt)
+            ctx.cov["evaluations"] += 1
+            if classify(s, post) != "new":
+                ctx.hit("unusable-after-kill", "%s: a run killed after %d of %d bytes left the prefix in %s; the same command afterwards does not produce the new content (file is %s)" % (
+                            s.name, k, n, partial, classify(s, post)),
+                        dict(kind="impl-counterexample", scenario=s.name, argv=s.argv, prep=s.prep, cut=k, stdout=out[-300:], found=(post or b"")[-400:].decode("utf-8", "replace"),
+                             **{"class": "unusable-after-kill"}))
+            shutil.rmtree(d, ignore_errors=True)
+            break
 
 
 def model_agreement(lab, s, results):
